@@ -28,6 +28,7 @@ DIMS = dict(
     solver=["A", "B"],
     conset=["basic", "offsets", "grids"],
     qobj=[False, True],      # a Lagrange term written through a user-declared quadrature state and at_tf
+    cleared=[False, True],   # a draft constraint set dropped through clear_constraints() before the final one is declared
 )
 POS = ["fresh", "after_query", "after_solve", "after_update", "after_edit", "after_method", "twice"]
 
@@ -39,6 +40,7 @@ def forbid(a):
 def finish(a):
     a = dict(a)
     scaled, guesses, solver, conset, qobj = a.pop("scaled"), a.pop("guesses"), a.pop("solver"), a.pop("conset"), a.pop("qobj")
+    cleared = a.pop("cleared")
     if a["alg"]:
         a["method"] = "DC"
     d = P.case(**a)
@@ -58,6 +60,7 @@ def finish(a):
     if guesses:
         d["init"] = [["x", "const", 0.8], ["u", "expr", "sin"]] if d["state"] == "scalar" else [["u", "expr", "sin"], ["u", "const", 0.3]]
     d["solver"] = solver
+    if cleared: d["cleared"] = True
     return d
 
 
